@@ -1,4 +1,5 @@
 import Retro.Drv.RenderCommon
+import Retro.Spec.Stats
 
 namespace Retro.Drv.C07
 open Retro Retro.Render Retro.Drv Retro.Drv.RenderCommon
@@ -69,6 +70,40 @@ def handle (case impl : List String) : Verdict :=
       "a fragment changed the colour buffer but left the depth buffer at its initial value although depth writes are on"
     let nWritten := io.color.foldl (fun n c => if c != sentinelBits then n + 1 else n) 0
     let v := v.withSpec (nWritten > g 6) "stats-frags-out" s!"{nWritten} pixels changed colour but frags.o = {g 6}"
+    -- the statistics equal what happened (Props/C07/StatsExact.lean `render_stats_exact`): prims.o, frags.i
+    -- and frags.o must lie in the intervals Spec.Stats computes from the SUBMITTED triangles alone (outcodes,
+    -- det[x y w] winding, ideal homogeneous rasterisation, per-pixel replay of the depth test) — no clipper,
+    -- no scan converter, no model counters; the interval is a single value when nothing is ambiguous
+    let v :=
+      let toV (p : Retro.Clip.Vec4 Rat) : Spec.Ideal.V4 := ⟨p.x, p.y, p.z, p.w⟩
+      let scv := (clipVerts s io).map fun pa => toV pa.1
+      let (vl, vt, vr, vb) := s.vp
+      let dx : Rat := ((vr : Rat) - vl) / 2
+      let dy : Rat := ((vb : Rat) - vt) / 2
+      let cfg : Spec.Stats.Cfg :=
+        { cull := if s.cull == "b" then .back else if s.cull == "f" then .front else .off
+          test := if !s.tgtFb then .none else if s.test == "l" then .less else if s.test == "g" then .greater
+                  else if s.test == "e" then .equal else .none
+          cw := s.cw, dw := s.dw, hasDepth := s.tgtFb, zinit := ratOf s.zinit, w := s.w, h := s.h
+          vp := ((vl : Rat) + dx, (vt : Rat) + dy, dx, dy)
+          inViewport := inViewport s
+          shaded := fun x y => !(s.sh == 1 && (x + y) % 2 == 0)
+          ordered := s.hist.all fun c => c.1 == "n" }
+      let preps : List (Option Spec.Stats.Prep) := (s.tris.zip (List.range s.tris.length)).map fun (ijl, id) =>
+        match scv[ijl.1]?, scv[ijl.2.1]?, scv[ijl.2.2]? with
+        | some a, some b, some c => some (Spec.Stats.prep cfg id a b c)
+        | _, _, _ => none
+      let calls : List (List Spec.Stats.Prep) := s.hist.map fun call => call.2.filterMap fun i => (preps[i]?).join
+      let pO := Spec.Stats.primsOut calls
+      let fI := Spec.Stats.fragsIn cfg calls
+      let fO := Spec.Stats.fragsOut cfg calls
+      let v := v.addTag (if pO.lo == pO.hi && fI.lo == fI.hi && fO.lo == fO.hi then "stats-exact" else "stats-bounds")
+      let v := v.withSpec (!pO.contains (g 2)) "stats-prims-out-count"
+        s!"prims.o = {g 2}, but between {pO.lo} and {pO.hi} of the submitted triangles survive clipping and culling"
+      let v := v.withSpec (!fI.contains (g 5)) "stats-frags-in-count"
+        s!"frags.i = {g 5}, but between {fI.lo} and {fI.hi} pixel centres lie in the visible parts of the drawn triangles"
+      v.withSpec (!fO.contains (g 6)) "stats-frags-out-count"
+        s!"frags.o = {g 6}, but between {fO.lo} and {fO.hi} fragments pass the depth test in draw order, are shaded and colour-written"
     -- culling, for single-triangle scenes
     match secs.getD 5 [] with
     | "1" :: ab :: af :: bb :: bf :: an :: bn :: ndiff :: rest =>
